@@ -1,7 +1,8 @@
 -------------------------------- MODULE DagTrees --------------------------------
 (* Flat dag-pb trees (no variables, no constants): a tree is a function from paths (sequences of
-   link names, <<>> = the root) to the data id of the node at that path, prefix-closed.
-   Data ids are opaque to these operators.  A set D of ids is "directory data" (0 = the plain UnixFS
+   link names, <<>> = the root) to the label ("data id") of the node at that path, prefix-closed.
+   Labels are opaque to these operators (the universe uses <<payload id, CID builder id>>: what,
+   together with the entries, determines the node's CID).  A set D of ids is "directory data" (0 = the plain UnixFS
    directory payload, others = directory payloads with metadata such as a mode); the other ids are
    leaf payloads.  Directories carry their OWN data, which may differ between two trees although
    the entries are the same (or differ too). *)
